@@ -18,6 +18,9 @@ type Set struct {
 	// refers to it: every name and import denotes the module of the set, which carries a later revision.
 	Older      string `json:"older_revision_of,omitempty"`
 	OlderFirst bool   `json:"older_first,omitempty"`
+	// OneLine: every text of the set is written on a single line (statements are told apart by their columns
+	// only; whatever orders or keys things by line number meets nothing but ties).
+	OneLine bool `json:"one_line,omitempty"`
 	// Extra: further texts loaded after the others (e.g. an older, empty revision of a deviating module).
 	Extra []Source `json:"extra_texts,omitempty"`
 }
@@ -92,7 +95,20 @@ func (s *Set) OlderText() *Source {
 		}
 	}
 	fmt.Fprintf(&b, "  container older-only {\n    choice och { leaf oa { type string; } container ob { leaf x { type string; } } }\n  }\n  augment \"/%s:older-only\" { leaf oz { type string; } choice och2 { leaf ob2 { type string; } } }\n  rpc older-op { input { leaf i { type string; } } }\n}\n", m.Prefix)
-	return &Source{Name: m.Name + "@2019-05-05.yang", Text: b.String()}
+	return &Source{Name: m.Name + "@2019-05-05.yang", Text: s.layout(b.String())}
+}
+
+// layout applies the set's layout choice to a printed text. The printers put no raw line break inside a quoted
+// string and write no // comments, so joining the lines changes no statement.
+func (s *Set) layout(text string) string {
+	if !s.OneLine {
+		return text
+	}
+	lines := strings.Split(text, "\n")
+	for i := range lines {
+		lines[i] = strings.TrimLeft(lines[i], " ")
+	}
+	return strings.TrimRight(strings.Join(lines, " "), " ") + "\n"
 }
 
 type Import struct {
@@ -664,7 +680,7 @@ func (s *Set) Texts() []Source {
 func (s *Set) ModuleTexts() []Source {
 	var out []Source
 	for _, m := range s.Modules {
-		out = append(out, Source{Name: m.FileName(), Text: m.Text()})
+		out = append(out, Source{Name: m.FileName(), Text: s.layout(m.Text())})
 	}
 	return out
 }
